@@ -334,6 +334,9 @@ impl Lane for C12 {
         } else if rng.chance(1, 250) {
             // rows of the bit matrix spanning nine and more words
             *rng.pick(&[577, 578, 640, 641, 704, 705, 1000, 1024, 1088])
+        } else if rng.chance(1, 60) {
+            // rows of two to four words, any residue
+            rng.range(65, 200)
         } else if rng.chance(1, 40) {
             // bit-matrix rows that start on a word boundary
             *rng.pick(&[64, 128, 192, 256])
@@ -373,10 +376,12 @@ impl Lane for C12 {
                 }
             }
             g
-        } else if n >= 3 && (n % 64 == 0 && rng.chance(1, 2) || rng.chance(1, 30)) {
-            // size-preserving defects confined to one residue class of the column index
+        } else if n >= 3 && (n % 64 == 0 && rng.chance(1, 2) || n > 65 && rng.chance(1, 4) || rng.chance(1, 30)) {
+            // size-preserving defects confined to one residue class of the column index; with rows longer than
+            // a word, the class of the row's own index (distance a multiple of 64) half of the time
             let ds: Vec<usize> = [1usize, 2, 8, 16, 32, 64, 128, 192].iter().copied().filter(|&x| x < n).collect();
-            let dist = *rng.pick(&ds);
+            let words: Vec<usize> = ds.iter().copied().filter(|x| x % 64 == 0 && x + 2 <= n).collect();
+            let dist = if !words.is_empty() && rng.chance(1, 2) { *rng.pick(&words) } else { *rng.pick(&ds) };
             let k = rng.range(1, 2);
             tournament_with_paired_defects(rng, n, dist, k)
         } else {
